@@ -82,6 +82,8 @@ class Ctx:
 
     def floor(self, rule, count, minimum, what):
         from .model import AnalysisError
+        if self.violations:
+            return   # the run already reports violations; a reduced count is a consequence, not a vanished anchor
         if count < minimum:
             raise AnalysisError(f"{rule}: only {count} {what} matched; at least {minimum} were confirmed by hand "
                                 f"on the pinned tree - the rule would pass vacuously (anchor moved?)")
